@@ -119,6 +119,7 @@ namespace impl{
 			predefined_["windows1251"]=&windows_1251_valid<char const *>;
 			predefined_["windows1252"]=&windows_1252_valid<char const *>;
 			predefined_["windows1253"]=&windows_1253_valid<char const *>;
+			predefined_["windows1254"]=&windows_1254_valid<char const *>;
 			predefined_["windows1255"]=&windows_1255_valid<char const *>;
 			predefined_["windows1256"]=&windows_1256_valid<char const *>;
 			predefined_["windows1257"]=&windows_1257_valid<char const *>;
@@ -128,6 +129,7 @@ namespace impl{
 			predefined_["cp1251"]=&windows_1251_valid<char const *>;
 			predefined_["cp1252"]=&windows_1252_valid<char const *>;
 			predefined_["cp1253"]=&windows_1253_valid<char const *>;
+			predefined_["cp1254"]=&windows_1254_valid<char const *>;
 			predefined_["cp1255"]=&windows_1255_valid<char const *>;
 			predefined_["cp1256"]=&windows_1256_valid<char const *>;
 			predefined_["cp1257"]=&windows_1257_valid<char const *>;
